@@ -27,7 +27,76 @@ func inScope(oi *ObjInfo, scope string) bool {
 	return oi.Path == scope || strings.HasPrefix(oi.Path, scope+"/")
 }
 
-func (monC06) AtState(x *Exec) {
+// recoveryGating applies the gating rules across a crash: what was durably decided before the crash still gates what
+// the restarted engine may start.
+func (monC06) recoveryGating(x *Exec) {
+	from, to := newEvents(x, "c06r")
+	if from == to {
+		return
+	}
+	h := NewHist(x, -1)
+	for k := from; k < to; k++ {
+		e := &h.Events[k]
+		if e.Kind != "INV" {
+			continue
+		}
+		oi := x.W.Objs[e.Path]
+		if !isSeqAction(oi) {
+			continue
+		}
+		cv := crashView(x, oi.Plan)
+		if cv == nil {
+			continue
+		}
+		// only sequences that had not been started before the crash are "started" by the recovery
+		if ss := cv.Objs[oi.Parent]; ss == nil || ss.Status != workflow.NotStarted {
+			continue
+		}
+		planPath := fmt.Sprintf("P%d", oi.Plan)
+		for _, scope := range []string{planPath, fmt.Sprintf("%s/B%d", planPath, oi.Block)} {
+			_, pre, cont, _, _ := x.scopeChecks(scope)
+			if pre != nil {
+				if po := cv.Objs[scope+"/Pre"]; po != nil && po.Status == workflow.Failed {
+					x.Report(&Violation{Property: "C06", Rule: "sequence-action-after-failed-precheck", Signature: "pre-across-crash",
+						Msg: fmt.Sprintf("recovery invoked %s although the pre-checks of %s were durably Failed", e.Path, scope)})
+				}
+				if h.groupFailedEver(x, scope+"/Pre", k) {
+					x.Report(&Violation{Property: "C06", Rule: "sequence-action-after-failed-precheck", Signature: "pre-across-crash",
+						Msg: fmt.Sprintf("recovery invoked %s although a pre-check of %s failed after the restart", e.Path, scope)})
+				}
+			}
+			if cont != nil {
+				co := cv.Objs[scope+"/Cont"]
+				if co != nil && co.Status == workflow.Failed {
+					x.Report(&Violation{Property: "C06", Rule: "sequence-action-after-failed-initial-contcheck", Signature: "cont-across-crash",
+						Msg: fmt.Sprintf("recovery started %s although the continuous checks of %s were durably Failed", oi.Parent, scope)})
+				}
+				passedBefore := co != nil && co.Status == workflow.Completed
+				passedNow := h.groupPassed(x, scope+"/Cont", k)
+				if h.groupFailedEver(x, scope+"/Cont", k) {
+					x.Report(&Violation{Property: "C06", Rule: "sequence-action-after-failed-initial-contcheck", Signature: "cont-across-crash",
+						Msg: fmt.Sprintf("recovery started %s although a continuous check of %s failed after the restart", oi.Parent, scope)})
+				} else if !passedBefore && !passedNow {
+					x.Report(&Violation{Property: "C06", Rule: "sequence-action-without-initial-contcheck", Signature: "cont-initial-across-crash",
+						Msg: fmt.Sprintf("recovery started %s although no run of the continuous checks of %s has passed, neither durably before the crash (stored %v) nor after the restart", oi.Parent, scope, statusOf(co))})
+				}
+			}
+		}
+	}
+}
+
+func statusOf(o *ObjView) string {
+	if o == nil {
+		return "?"
+	}
+	return o.Status.String()
+}
+
+func (m monC06) AtState(x *Exec) {
+	if _, ok := recoveryMode(x); ok {
+		m.recoveryGating(x)
+		return
+	}
 	from, to := newEvents(x, "c06")
 	if from == to {
 		return
@@ -99,6 +168,9 @@ func firstSeqInv(x *Exec, h *Hist, scope string) int {
 }
 
 func (monC06) AtEnd(x *Exec) {
+	if _, ok := recoveryMode(x); ok {
+		return
+	}
 	h := NewHist(x, 0)
 	n := len(h.Events)
 	if x.Outcome == "hang" {
@@ -227,6 +299,20 @@ func init() {
 			}
 			for _, sc := range FamilyCont(tier) {
 				items = append(items, explore("C06", sc, b-1, true))
+			}
+			// the same gating across a crash: every durable state of the check-group scenarios is a crash point
+			var crash []*Scenario
+			for _, sc := range FamilyCrash(tier) {
+				if strings.Contains(sc.Name, "chk-") || strings.Contains(sc.Name, "cont-fails") || strings.Contains(sc.Name, "all-groups") || strings.Contains(sc.Name, "-def") {
+					crash = append(crash, sc)
+				}
+			}
+			for _, it := range crashItems("C06", tier, crash) {
+				it.Args["first"] = 1 // the crash must be able to fall between two parallel check groups
+				if tier != "thorough" {
+					it.Opts.MaxSeconds = 40
+				}
+				items = append(items, it)
 			}
 			return items
 		},
